@@ -307,6 +307,14 @@ NonMalleable ==
         (toks[i].root = forged.root /\ SameBlocksModForm(forged.tok, KTok(i)))
             => RevIds(forged.tok) = RevIds(KTok(i))
 
+\* the ECDSA re-encoding weakness is the only way revocation ids of the same blocks can differ
+NonMalleableModuloKnown ==
+    Accepted => \A i \in 1..Len(toks) :
+        (toks[i].root = forged.root /\ SameBlocksModForm(forged.tok, KTok(i)) /\ RevIds(forged.tok) # RevIds(KTok(i)))
+            => /\ Last(forged.tok).sig.signer.alg = "p256"
+               /\ \A j \in 1..(Len(forged.tok.blocks) - 1) : forged.tok.blocks[j] = KTok(i).blocks[j]
+               /\ (IsSealed(forged.tok) => i \in forged.known /\ FALSE)
+
 \* C02: every honest token verifies under its root
 Complete == \A i \in 1..Len(toks) : Verify(KTok(i), toks[i].root)
 
@@ -333,6 +341,10 @@ SealedFinal ==
                \/ \E h \in 1..Len(toks) : h # i /\ AuthenticVia(forged.tok, KTok(h), forged.known, h \in forged.known)
                \/ SameBlocksModForm(forged.tok, KTok(i))
 
+\* SealedFinal holds except through the v0 weakness (a version-0 last block and its seal
+\* do not cover the blocks before them)
+SealedFinalModuloKnown == SealedFinal \/ Weakness = "v0-resplice"
+
 \* one line per adversary token (accepted ones always, rejected ones sampled 1/SampleN)
 ExportForged ==
     (ExportOn /\ phase = "done" /\ (Accepted \/ SampleN = 1 \/ RandomElement(1..SampleN) = 1)) =>
@@ -355,6 +367,9 @@ TP == {"T1"}
 AlgsEd == {"ed"}
 AlgsP == {"p256"}
 AlgsBoth == {"ed", "p256"}
+NoMutations == {}
+IdMutations == {"Malleate", "SetSig", "Identity", "Proof", "Reorder"}
+OnlyIdentity == {"Identity"}
 AllMutations == {"SetPayload", "SetNextKey", "SetSig", "SetVer", "SetExt", "Reorder", "Truncate",
                  "Splice", "Malleate", "Forge", "Proof", "Identity"}
 =============================================================================
